@@ -10,7 +10,7 @@ up to `n` times, re-issuing `pop()` the moment its previous pop was resolved wit
 i.e. before the operation that woke it returns) and stopping at the first exception.  The sequential harness has no
 second thread, so every in-flight resolution is performed right after the lock region that decided it.
 
-`pushthrow` is a `push` whose item constructor throws (kind `q` only; precondition: no pop waiting, else `n/a`).
+`pushthrow` is a `push` whose item constructor throws (kinds `q` / `sq`; `vq` has no item: `n/a`).
 
 Kinds `sq` / `svq` (harness `run_sched`): scheduled interleavings, see `Drivers/SchedCommon.lean`; this file supplies
 the model side (`schedModel`): one lock region = one model step, `deliver` of a paused call = `Op.deliver`.  The
@@ -111,7 +111,7 @@ def parseOp (ws : List String) : Option Op :=
   | ["destroy"] => some Op.destroy
   | _ => none
 
-def headOf (void : Bool) (op : Op) (r : Res) : String :=
+def headOf (op : Op) (r : Res) : String :=
   match r with
   | Res.push _ woke => "push woke=" ++ boolStr woke
   | Res.pop id (some o) => s!"pop#{id} {outStr o}"
@@ -121,8 +121,8 @@ def headOf (void : Bool) (op : Op) (r : Res) : String :=
       | _ => "empty " ++ boolStr b)
   | Res.num n => s!"size {n}"
   | Res.unit => "destroy"
-  | Res.threw => if void then "pushthrow n/a" else "pushthrow threw"
-  | Res.bad => if op == Op.pushthrow then "pushthrow n/a" else "bad-op"
+  | Res.threw => "pushthrow threw"
+  | Res.bad => "bad-op"
 
 partial def caseLoop {σ} (m : Mach σ) (lines : Array String) (i : Nat) (d : DState σ) : IO Nat := do
   if h : i < lines.size then
@@ -146,14 +146,22 @@ partial def caseLoop {σ} (m : Mach σ) (lines : Array String) (i : Nat) (d : DS
           match parseOp ws with
           | some op =>
               let (d', r, evs) := doOp m d op
-              IO.println (finish (headOf d.void op r) evs)
+              IO.println (finish (headOf op r) evs)
               caseLoop m lines (i+1) d'
           | none => IO.println "bad-op"; caseLoop m lines (i+1) d
+    | ["pushthrow"] =>
+        if d.void then
+          IO.println "pushthrow n/a"      -- the harness does not call anything: `void` has no constructor
+          caseLoop m lines (i+1) d
+        else
+          let (d', r, evs) := doOp m d Op.pushthrow
+          IO.println (finish (headOf Op.pushthrow r) evs)
+          caseLoop m lines (i+1) d'
     | _ =>
         match parseOp ws with
         | some op =>
             let (d', r, evs) := doOp m d op
-            IO.println (finish (headOf d.void op r) evs)
+            IO.println (finish (headOf op r) evs)
             if op == Op.destroy then
               IO.println "end"
               -- the rest of the case is swallowed
@@ -186,7 +194,7 @@ def schedOp (void : Bool) (ws : List String) : Option Op :=
   | ["empty"] => some Op.empty
   | _ => none
 
-def schedModel {σ} (m : Mach σ) (waiting : σ → Bool) (void : Bool) : Sched.Model (SSt σ) where
+def schedModel {σ} (m : Mach σ) (void : Bool) : Sched.Model (SSt σ) where
   issue ws ctr :=
     match schedOp void ws with
     | none => none
@@ -217,7 +225,6 @@ def schedModel {σ} (m : Mach σ) (waiting : σ → Bool) (void : Bool) : Sched.
     let n0 := (m.completed s.st).length
     let s1 := (m.step s.st Op.destroy).1
     ((m.completed s1).drop n0).map (sevOf s)
-  pre s _ := !waiting s.st
 
 partial def loop (lines : Array String) (i : Nat) : IO Unit := do
   if h : i < lines.size then
@@ -232,11 +239,11 @@ partial def loop (lines : Array String) (i : Nat) : IO Unit := do
         loop lines j
     | ("case" :: id :: "sq" :: _) =>
         IO.println s!"case {id}"
-        let j ← Sched.caseLoop (schedModel machQ (fun s => !s.waiters.isEmpty) false) lines (i+1) { st := { st := Q.init } }
+        let j ← Sched.caseLoop (schedModel machQ false) lines (i+1) { st := { st := Q.init } }
         loop lines j
     | ("case" :: id :: "svq" :: _) =>
         IO.println s!"case {id}"
-        let j ← Sched.caseLoop (schedModel machV (fun s => !s.waiters.isEmpty) true) lines (i+1) { st := { st := VQ.init } }
+        let j ← Sched.caseLoop (schedModel machV true) lines (i+1) { st := { st := VQ.init } }
         loop lines j
     | _ => loop lines (i+1)
   else return ()
